@@ -433,7 +433,8 @@ def getScheme (first : Bool) (acc : Bytes) : Bytes → Option (Option (Bytes × 
     else some none
 
 /-- authorities whose `parseAuthority` is certainly fine and has no effect on the path:
-    `[A-Za-z0-9.-]*` optionally followed by `:` and digits (no userinfo, no IPv6 literal, no escapes) -/
+    `[A-Za-z0-9.-]*` optionally followed by `:` and digits (no userinfo, no IPv6 literal, no escapes).
+    Kept as the easy sub-domain (`simpleAuth a → authorityOk a`, ProofsUrl.lean); the model now uses `authorityOk`. -/
 def simpleAuth (a : Bytes) : Bool :=
   let host := a.takeWhile (· != 58)
   let port := a.dropWhile (· != 58)
@@ -442,11 +443,97 @@ def simpleAuth (a : Bytes) : Bool :=
      | [] => true
      | _ :: ds => ds.all fun c => 48 ≤ c && c ≤ 57)
 
+/-! ### `parseAuthority` (userinfo, `[v6]` literals with zones, ports, %-escapes in the host)
+
+  Only success/failure matters for routing: `URL.User`/`URL.Host` are never read by `RouteHTTP`, and the path that
+  follows the authority is handed to `setPath` unchanged. -/
+
+/-- `shouldEscape(c, encodeHost)` = `shouldEscape(c, encodeZone)`: alphanumerics, the sub-delims
+    `! $ & ' ( ) * + , ; =`, `: [ ] < > "` and the marks `- _ . ~` stay; `/ ? @` and everything else is escaped. -/
+def hostShouldEscape (c : UInt8) : Bool :=
+  if isAlnum c then false
+  else if c == 33 || c == 36 || c == 38 || c == 39 || c == 40 || c == 41 || c == 42 || c == 43 || c == 44 ||
+      c == 59 || c == 61 || c == 58 || c == 91 || c == 93 || c == 60 || c == 62 || c == 34 then false
+  else if c == 45 || c == 95 || c == 46 || c == 126 then false
+  else true
+
+/-- the validation loop of `unescape(s, encodeHost)` (`zone = false`) / `unescape(s, encodeZone)` (`zone = true`):
+    `%XY` needs two hex digits; in a host only `%25` and escapes of non-ASCII bytes (`unhex(X) ≥ 8`) are allowed; in a
+    zone `%25`, `%20` and escapes of bytes that could be written directly; an unescaped ASCII byte must be a host byte. -/
+def hostEscapesOk (zone : Bool) : Bytes → Bool
+  | [] => true
+  | c :: rest =>
+    if c = 37 then
+      match rest with
+      | h :: l :: r =>
+        ishex h && ishex l &&
+          (if zone then ((h == 50 && l == 53) || ((unhex h <<< 4) ||| unhex l) == 32 ||
+              !hostShouldEscape ((unhex h <<< 4) ||| unhex l))
+           else (!(unhex h < 8) || (h == 50 && l == 53))) &&
+          hostEscapesOk zone r
+      | _ => false
+    else !(c < 128 && hostShouldEscape c) && hostEscapesOk zone rest
+
+/-- `validOptionalPort` -/
+def validOptionalPort : Bytes → Bool
+  | [] => true
+  | c :: ds => c == 58 && ds.all fun b => 48 ≤ b && b ≤ 57
+
+/-- `strings.LastIndex(s, string(c))` -/
+def lastIndexByte (c : UInt8) : Bytes → Option Nat
+  | [] => none
+  | x :: r =>
+    match lastIndexByte c r with
+    | some i => some (i + 1)
+    | none => if x = c then some 0 else none
+
+/-- `strings.Index(s, "%25")` -/
+def indexPct25 : Bytes → Option Nat
+  | [] => none
+  | c :: r => if (c :: r).take 3 = [37, 50, 53] then some 0 else (indexPct25 r).map (· + 1)
+
+/-- `parseHost(host)` succeeds -/
+def hostOk (host : Bytes) : Bool :=
+  match host with
+  | 91 :: _ =>
+    match lastIndexByte 93 host with
+    | none => false                                   -- missing ']' in host
+    | some i =>
+      if !validOptionalPort (host.drop (i + 1)) then false
+      else match indexPct25 (host.take i) with
+        | some z => hostEscapesOk false (host.take z) && hostEscapesOk true ((host.take i).drop z) &&
+                      hostEscapesOk false (host.drop i)
+        | none => hostEscapesOk false host
+  | _ =>
+    match lastIndexByte 58 host with
+    | some i => if !validOptionalPort (host.drop i) then false else hostEscapesOk false host
+    | none => hostEscapesOk false host
+
+/-- `validUserinfo` (ranging over runes: every byte ≥ 0x80 belongs to a rune outside the allowed set) -/
+def validUserinfo (s : Bytes) : Bool :=
+  s.all fun c => isAlnum c || c == 45 || c == 46 || c == 95 || c == 58 || c == 126 || c == 33 || c == 36 || c == 38 ||
+    c == 39 || c == 40 || c == 41 || c == 42 || c == 43 || c == 44 || c == 59 || c == 61 || c == 37 || c == 64
+
+/-- `parseAuthority(authority)` succeeds: host after the last `@`; userinfo valid and, cut at its first `:`,
+    both halves with complete escapes (`unescape(·, encodeUserPassword)`) -/
+def authorityOk (a : Bytes) : Bool :=
+  match lastIndexByte 64 a with
+  | none => hostOk a
+  | some i =>
+    hostOk (a.drop (i + 1)) &&
+      (let userinfo := a.take i
+       validUserinfo userinfo &&
+         (if userinfo.contains 58 then
+            escapesOk (userinfo.takeWhile (· != 58)) && escapesOk ((userinfo.dropWhile (· != 58)).drop 1)
+          else escapesOk userinfo))
+
 /-- `url.ParseRequestURI(raw)` (`parse(raw, viaRequest = true)`): control-character check, empty, `*`, `getScheme`,
     query cut (both branches of the code — `ForceQuery` / `strings.Cut` — leave the text before the first `?`),
     then: no scheme ⇒ the target must start with `/` and no authority is split off; with a scheme ⇒ opaque
-    (`Path` empty) / `//authority` + path / `/path`. Outer `none` = outside the modelled domain (an authority that is
-    not `simpleAuth`: userinfo, IPv6 literals, escapes, odd ports); inner `none` = parse error. -/
+    (`Path` empty) / `//authority` + path / `/path`; the authority goes through `parseAuthority` (`authorityOk`:
+    userinfo, IPv6 literals and zones, ports, escapes) and only decides between error and success.
+    Inner `none` = parse error; the outer `Option` is always `some` (kept from the time when non-trivial
+    authorities were outside the model). -/
 def parseRequestURI (raw : Bytes) : Option (Option Url) :=
   if containsCTL raw then some none
   else if raw = [] then some none
@@ -460,7 +547,7 @@ def parseRequestURI (raw : Bytes) : Option (Option Url) :=
     | some (some (_, rest)) =>
       match beforeQuery rest with
       | 47 :: 47 :: a =>
-        if simpleAuth (a.takeWhile (· != 47)) then some (setPath (a.dropWhile (· != 47))) else none
+        if authorityOk (a.takeWhile (· != 47)) then some (setPath (a.dropWhile (· != 47))) else some none
       | 47 :: r => some (setPath (47 :: r))
       | _ => some (some { path := [], rawPath := [] })
 
